@@ -126,6 +126,15 @@ func (s *RegionStorage) SaveRegion(region *metapb.Region) error {
 	return nil
 }
 
+// Remove deletes the record stored under key. A copy of it that is still waiting in the write batch
+// is dropped as well, otherwise the next flush would write the deleted region back.
+func (s *RegionStorage) Remove(key string) error {
+	s.mu.Lock()
+	defer s.mu.Unlock()
+	delete(s.batchRegions, key)
+	return s.LeveldbKV.Remove(key)
+}
+
 func deleteRegion(kv kv.Base, region *metapb.Region) error {
 	return kv.Remove(regionPath(region.GetId()))
 }
